@@ -291,6 +291,10 @@ def run(ctx):
     ctx.check(plt_ is not None and "PlottingProxy(self)" in U(plt_.node), "C20.c", "HistogramBase.plot", "the proxy wraps the histogram itself",
               "HistogramBase.plot does not return PlottingProxy(self)", plt_.where if plt_ else "")
 
+    from rules import wiring as _w
+    _w.params_used(ctx, "C20.c", _w.funcs_of(m, "plotting", "plotting.common", "plotting.matplotlib", "plotting.plotly", "plotting.ascii"),
+                   "plotting:options-read")
+
     # ---- C20.d labels ------------------------------------------------------------------------------------------------------------------
     ctx.rule("C20.d", "bar / scatter / line / fill / step / map / image / bar3d call _add_labels; defaults are the histogram's title and axis names", 9)
     for kind in ("bar", "scatter", "line", "fill", "step", "map", "image", "bar3d"):
